@@ -206,8 +206,12 @@ StepUpdate ==
          a    == [u |-> u, ref |-> Ev.args.ref, usage |-> ConvUsage(Ev.args.usage), trig |-> Ev.args.trig, split |-> grew,
                   fault |-> Ev.args.fault]
          known == RefKnownH(u, a.ref)
-         h2   == IF known THEN HUpdate(h, a, resp) ELSE h
          ok   == resp.status = 200
+         \* an update answered 200 although no create ever returned its reference: the CHF now serves a session under that
+         \* reference, and it counts as one that has not been released (C10)
+         adopted == [u |-> u, chid |-> -1, consumer |-> "", sub |-> "", plmn |-> "", live |-> TRUE, ids |-> <<>>]
+         h2   == IF known THEN HUpdate(h, a, resp)
+                 ELSE IF ok /\ a.ref \notin DOMAIN h.sess THEN [h EXCEPT !.sess = Upd(h.sess, a.ref, adopted)] ELSE h
          partial == ok /\ Len(a.trig) > 0 /\ a.trig[Len(a.trig)] # "final" /\ \E i \in 1..Len(a.usage) : HasOnline(a.usage[i])
          contract == ok /\ Ev.result.seq = Ev.args.isn /\ Ev.result.hasTs
      IN /\ pre' = obs /\ h' = h2
